@@ -3,12 +3,13 @@
 
   Proved here: what the debug configuration adds (the node attributes at creation, the edge attribute on
   a newly created edge only), and that removing the configured attribute names commutes with every
-  graph operation that does not use them (the algebra behind neutrality). The whole-program neutrality
-  statement `C15_full` is stated and left to the differential check (both configurations are run and the
-  stripped graphs compared on every generated case).
+  graph operation that does not use them (the algebra behind neutrality). The whole-program neutrality of
+  strict execution is `C15_strict_neutral`; the lazy interpreter's is left to the differential check (both
+  configurations are run and the stripped graphs compared on every generated case).
 -/
 import Tsg.Proofs.Extends
 import Tsg.Sem.Lazy
+import Tsg.Proofs.DebugNeutral
 
 namespace C15
 
@@ -20,95 +21,17 @@ theorem C15_location_text (l : Loc) :
 theorem C15_variable_text (x : String) (l : Loc) (scope : Expr) :
     (Var.unscoped x l).display = x ∧ (Var.scopedV scope x l).display = scope.display ++ "." ++ x := ⟨rfl, rfl⟩
 
-/-- remove the configured debug attribute names from an attribute set -/
-def stripAttrs (names : List String) (a : Attrs) : Attrs := a.filter fun kv => !names.contains kv.1
-
-def stripNode (names : List String) (n : GNode) : GNode :=
-  { edges := n.edges.map fun e => (e.1, stripAttrs names e.2), attrs := stripAttrs names n.attrs }
-
-def strip (names : List String) (g : CGraph) : CGraph := { nodes := g.nodes.map (stripNode names) }
-
-theorem stripAttrs_cons (names : List String) (k : String) (v : Val) (rest : Attrs) :
-    stripAttrs names ((k, v) :: rest) =
-      if names.contains k = true then stripAttrs names rest else (k, v) :: stripAttrs names rest := by
-  unfold stripAttrs
-  rw [List.filter_cons]
-  cases names.contains k <;> simp
-
-theorem lookup_stripAttrs (names : List String) (a : Attrs) (k : String) (hk : names.contains k = false) :
-    (stripAttrs names a).lookup k = a.lookup k := by
-  induction a with
-  | nil => rfl
-  | cons p rest ih =>
-    obtain ⟨k', v'⟩ := p
-    rw [stripAttrs_cons]
-    by_cases hkk : k' = k
-    · subst hkk
-      simp only [hk, Bool.false_eq_true, if_false, List.lookup, beq_self_eq_true]
-    · have hb : (k == k') = false := by simp [Ne.symm hkk]
-      cases hn : names.contains k' with
-      | true => simp only [if_true, List.lookup, hb]; exact ih
-      | false => simp only [Bool.false_eq_true, if_false, List.lookup, hb]; exact ih
-
-theorem stripAttrs_append (names : List String) (a b : Attrs) :
-    stripAttrs names (a ++ b) = stripAttrs names a ++ stripAttrs names b := by
-  simp [stripAttrs]
-
-theorem stripAttrs_replace_debug (names : List String) (a : Attrs) (k : String) (v : Val) (hk : names.contains k = true) :
-    stripAttrs names (Attrs.replace a k v) = stripAttrs names a := by
-  induction a with
-  | nil => rfl
-  | cons p rest ih =>
-    obtain ⟨k', v'⟩ := p
-    by_cases hkk : k' = k
-    · subst hkk; simp only [Attrs.replace, if_true, stripAttrs_cons, hk]
-    · simp only [Attrs.replace, hkk, if_false, stripAttrs_cons, ih]
-
 /-- adding a debug attribute is invisible after stripping -/
 theorem C15_debug_attr_invisible (names : List String) (a : Attrs) (k : String) (v : Val) (hk : names.contains k = true) :
-    stripAttrs names (Attrs.add a k v).1 = stripAttrs names a := by
-  unfold Attrs.add
-  cases hl : a.lookup k with
-  | none =>
-    simp only [stripAttrs_append]
-    have : stripAttrs names [(k, v)] = [] := by rw [stripAttrs_cons, if_pos hk]; rfl
-    rw [this]; simp
-  | some old =>
-    by_cases ho : old = v
-    · simp [ho]
-    · simp only [ho, if_false]; exact stripAttrs_replace_debug names a k v hk
-
-theorem stripAttrs_replace_other (names : List String) (a : Attrs) (k : String) (v : Val) (hk : names.contains k = false) :
-    stripAttrs names (Attrs.replace a k v) = Attrs.replace (stripAttrs names a) k v := by
-  induction a with
-  | nil => rfl
-  | cons p rest ih =>
-    obtain ⟨k', v'⟩ := p
-    by_cases hkk : k' = k
-    · subst hkk
-      simp only [Attrs.replace, if_true, stripAttrs_cons, hk, Bool.false_eq_true, if_false]
-    · simp only [Attrs.replace, hkk, if_false, stripAttrs_cons, ih]
-      cases hn : names.contains k' with
-      | true => simp
-      | false => simp [Attrs.replace, hkk]
+    stripAttrs names (Attrs.add a k v).1 = stripAttrs names a :=
+  stripAttrs_add_debug names a k v hk
 
 /-- adding any other attribute commutes with stripping, with the same conflict verdict: the
 presence of debug attributes does not change whether an ordinary assignment conflicts -/
 theorem C15_other_attr_commutes (names : List String) (a : Attrs) (k : String) (v : Val) (hk : names.contains k = false) :
     stripAttrs names (Attrs.add a k v).1 = (Attrs.add (stripAttrs names a) k v).1 ∧
-    (Attrs.add a k v).2 = (Attrs.add (stripAttrs names a) k v).2 := by
-  unfold Attrs.add
-  rw [lookup_stripAttrs names a k hk]
-  cases hl : a.lookup k with
-  | none =>
-    simp only [stripAttrs_append, and_true]
-    have : stripAttrs names [(k, v)] = [(k, v)] := by
-      rw [stripAttrs_cons, if_neg (by rw [hk]; simp)]; rfl
-    rw [this]
-  | some old =>
-    by_cases ho : old = v
-    · simp [ho]
-    · simp only [ho, if_false, and_true]; exact stripAttrs_replace_other names a k v hk
+    (Attrs.add a k v).2 = (Attrs.add (stripAttrs names a) k v).2 :=
+  stripAttrs_add_other names a k v hk
 
 /-- a newly created edge carries exactly the location attribute of the `edge` statement (when
 configured), an existing edge is left as it is — so a second `edge` statement can never conflict -/
@@ -141,14 +64,30 @@ theorem C15_edge_attr (g : CGraph) (src sink : Nat) (la : String) (loc : Loc) (n
         simp [GNode.getEdge] at he; rw [this] at he; cases he
     simp [GraphOp.apply, hn, GNode.addEdge, hnot]
 
-/-- the full neutrality statement (strict): with debug attribute names that the file does not use,
-stripping them from the debug run's result gives the plain run's result, success included -/
-def C15_full : Prop :=
-  ∀ (file : File) (tree : Tree) (oracle : Oracle) (globals : GlobalsM) (la va ma : String)
-    (fuel : Nat) (ms : List (List QMatch)),
-    let plain := Strict.run file tree oracle globals none none none none fuel ms {}
-    let dbg := Strict.run file tree oracle globals (some la) (some va) (some ma) none fuel ms {}
-    (plain.outcome = none ↔ dbg.outcome = none) ∧
-    (plain.outcome = none → strip [la, va, ma] dbg.graph = strip [la, va, ma] plain.graph)
+/-- **Debug attributes are neutral (strict mode), for whole programs.** If the three debug attribute names are
+pairwise different and the file does not use them as attribute names (in its stanzas or in its attribute
+shorthands), then the run with debug attributes and the run without them — from the same graph, with the same
+globals, matches, oracle answers and cancellation flag — end the same way (success, or the same error with the same
+contexts), after the same number of polls, with graphs that are equal once the debug attributes are removed.
+(Proof: Tsg/Proofs/DebugSim.lean — a simulation relation on programs with one congruence lemma per program former
+and per graph primitive; Tsg/Proofs/DebugNeutral.lean — every function of the strict interpreter under the debug
+configuration simulates itself under the plain one.) -/
+theorem C15_strict_neutral (file : File) (tree : Tree) (oracle : Oracle) (globals : GlobalsM) (la va ma : String)
+    (cancelAt : Option Nat) (fuel : Nat) (ms : List (List QMatch)) (g0 : CGraph)
+    (hd1 : la ≠ va) (hd2 : la ≠ ma) (hd3 : va ≠ ma)
+    (hstanzas : ∀ st ∈ file.stanzas, DebugSim.AttrsClean [la, va, ma] (DebugSim.stmtsAttrs st.stmts))
+    (hsh : ∀ sh ∈ file.shorthands, DebugSim.AttrsClean [la, va, ma] sh.attrs) :
+    let plain := Strict.run file tree oracle globals none none none cancelAt fuel ms g0
+    let dbg := Strict.run file tree oracle globals (some la) (some va) (some ma) cancelAt fuel ms g0
+    dbg.outcome = plain.outcome ∧ strip [la, va, ma] dbg.graph = strip [la, va, ma] plain.graph ∧ dbg.polls = plain.polls :=
+  DebugSim.strict_debug_neutral file tree oracle globals la va ma cancelAt fuel ms g0 hd1 hd2 hd3 hstanzas hsh
+
+/-- the hypothesis on the names is needed: a file that itself assigns an attribute with the name of a debug attribute
+conflicts with it (non-vacuity of the side condition, and of the theorem: the empty file satisfies all hypotheses) -/
+example : DebugSim.AttrsClean ["dl", "dv", "dm"] (DebugSim.stmtsAttrs [Stmt.attrNode (.var "n" ⟨0, 0⟩) [("kind", .trueLit)] ⟨0, 0⟩]) := by
+  intro a ha
+  simp [DebugSim.stmtsAttrs, DebugSim.stmtAttrs] at ha
+  subst ha
+  decide
 
 end C15
